@@ -35,7 +35,9 @@ Summary == /\ IsEv("summary") /\ UNCHANGED <<tix, ncs>>
            /\ E.childlive = 0                           \* a finished thread's collector finalised everything it still managed
            /\ E.sections = ncs /\ E.plain = ncs         \* the unprotected counter lost no update
 Share == IsEv("tlsshare") /\ E.kept = 0 /\ UNCHANGED <<tix, ncs>>     \* isolation: the parent's collector does not look into a child's TLS
-Next == Plain \/ Thread \/ CS \/ Summary \/ Share
+(* stop(thread): the thread it names is interrupted (it handles ProgramInterruptedError and finishes), the caller is not *)
+StopThread == IsEv("stopthread") /\ E.exc = "" /\ E.caught = 1 /\ E.mainhit = 0 /\ E.done = 1 /\ UNCHANGED <<tix, ncs>>
+Next == StopThread \/ Plain \/ Thread \/ CS \/ Summary \/ Share
 Spec == Init /\ [][Next]_vars
 Accepted == LET d == TLCGet("stats").diameter IN
             /\ PrintT(<<"TRACE_MATCHED", d - 1, Len(T)>>)
